@@ -19,7 +19,7 @@ from .. import effects as E
 from .. import guards as G
 from ..model import AnalysisError, dotted, src
 
-TECHNIQUE = "interprocedural keyed-container pairing (init vs stop), who-indexes-with-what, guard dominance over the unit module; abstract interpretation of small functions over an enumerated finite domain by the checker's own AST interpreter (static analysis)"
+TECHNIQUE = "interprocedural keyed-container pairing (init vs stop), who-indexes-with-what, guard dominance over the unit module; abstract interpretation of small functions over an enumerated finite domain and abstract execution of the repository's Executor / QNodeController over bounded application and message histories (C13.H, C13.Y) by the checker's own AST interpreter (static analysis)"
 ENGINES = ["model", "flow", "circuit", "session"]
 EXPLANATION = (
     "Over backend/executor.py, backend/qnodeos.py, sdk/shared_memory.py: parameter bindings are followed from "
